@@ -176,7 +176,8 @@ func (mc *XMCache) newXModelCacheIterator(bucket string, startKey []byte, endKey
 	// 意味着如果一个key在三个迭代器里面同时出现，优先级高的会覆盖优先级底的
 	multiIter := newMultiIterator(inputIter, backendIter)
 	multiIter = newMultiIterator(outputIter, multiIter)
-	return newContractIterator(multiIter), nil
+	// a key deleted by this execution hides the older value and must not be yielded itself
+	return newContractIterator(newStripDelFlagIterator(multiIter)), nil
 }
 
 // GetRWSets get read/write sets
